@@ -571,6 +571,61 @@ func fieldNameTypes(maxLen int) {
 	}
 }
 
+// localTypeA / localTypeB: two different function-local record types that print alike ("main.Local") and
+// keep the same field names at different positions. Each sorts [2 0 1] (K1) x [c a b] (K2) by field name.
+func localTypeA(field string, asc bool) (string, string) {
+	type Local struct {
+		K1  fpgo.ComparableOrdered[int]
+		K2  fpgo.ComparableString
+		Tag int
+	}
+	rows := []Local{{fpgo.NewComparableOrdered(2), fpgo.NewComparableString("c"), 0}, {fpgo.NewComparableOrdered(0), fpgo.NewComparableString("b"), 1}, {fpgo.NewComparableOrdered(1), fpgo.NewComparableString("a"), 2}}
+	out := ""
+	p := lib.Catch(func() {
+		for _, x := range fpgo.NewSortDescriptorsBuilder[Local]().ThenWithFieldName(field, asc).ToSortedList(rows...) {
+			out += fmt.Sprintf("%d%s ", x.K1.Val, x.K2.Val)
+		}
+	})
+	return out, p
+}
+
+func localTypeB(field string, asc bool) (string, string) {
+	type Local struct {
+		Tag int
+		K2  fpgo.ComparableString
+		Pad fpgo.ComparableOrdered[int]
+		K1  fpgo.ComparableOrdered[int]
+	}
+	rows := []Local{{0, fpgo.NewComparableString("c"), fpgo.NewComparableOrdered(5), fpgo.NewComparableOrdered(2)}, {1, fpgo.NewComparableString("b"), fpgo.NewComparableOrdered(9), fpgo.NewComparableOrdered(0)},
+		{2, fpgo.NewComparableString("a"), fpgo.NewComparableOrdered(7), fpgo.NewComparableOrdered(1)}}
+	out := ""
+	p := lib.Catch(func() {
+		for _, x := range fpgo.NewSortDescriptorsBuilder[Local]().ThenWithFieldName(field, asc).ToSortedList(rows...) {
+			out += fmt.Sprintf("%d%s ", x.K1.Val, x.K2.Val)
+		}
+	})
+	return out, p
+}
+
+func localTypes() {
+	want := map[string]string{"K1 true": "0b 1a 2c ", "K1 false": "2c 1a 0b ", "K2 true": "1a 0b 2c ", "K2 false": "2c 0b 1a "}
+	for round := 0; round < 2; round++ {
+		for _, field := range []string{"K1", "K2"} {
+			for _, asc := range []bool{true, false} {
+				for ti, f := range []func(string, bool) (string, string){localTypeA, localTypeB} {
+					evals++
+					got, p := f(field, asc)
+					if p != "" {
+						bad("ToSortedList", "panic", "rows of local type #%d by field %s: %s", ti, field, p)
+					} else if got != want[fmt.Sprint(field, " ", asc)] {
+						bad("ToSortedList", "lexicographic|field-name-on-second-local-type", "rows of function-local type #%d (both types print as main.Local) by field %s ascending=%v: %s, want %s", ti, field, asc, got, want[fmt.Sprint(field, " ", asc)])
+					}
+				}
+			}
+		}
+	}
+}
+
 func main() {
 	r = lib.NewReport("C19")
 	maxLen, rowLen := 4, 3
@@ -645,6 +700,7 @@ func main() {
 	}
 	descriptors(rowLen)
 	fieldNameTypes(rowLen)
+	localTypes()
 	r.Cov["states"] = inputs
 	r.Cov["transitions"] = evals
 	r.Cov["traces_validated_against_impl"] = evals
